@@ -22,29 +22,17 @@ pub struct Enumerated {
 }
 
 fn i_e_into_structure(id: u64, class: TagClass, inner: i64) -> structure::StructureTag {
-    let mut count = 0u8;
-    let mut rem: i64 = if inner >= 0 { inner } else { -inner };
-    while {
-        count += 1;
-        rem >>= 8;
-        rem > 0
-    } {}
-
-    // Ensure that the most significant bit is always 0, because BER uses signed numbers.
-    // We shift away all but the most significant bit and check that.
-    // See #21
-    if inner > 0 && inner >> ((8 * count) - 1) == 1 {
-        count += 1;
-    }
-
-    let mut count = count as usize;
-    let mut out: Vec<u8> = Vec::with_capacity(count);
+    // Shortest two's-complement form (X.690 8.3.2): drop a leading octet as long as it is
+    // 0x00 followed by a clear sign bit, or 0xFF followed by a set sign bit.
     let repr = inner.to_be_bytes();
-    if count > repr.len() {
-        out.push(0);
-        count -= 1;
+    let mut start = 0;
+    while start + 1 < repr.len()
+        && ((repr[start] == 0x00 && repr[start + 1] & 0x80 == 0)
+            || (repr[start] == 0xFF && repr[start + 1] & 0x80 != 0))
+    {
+        start += 1;
     }
-    out.extend_from_slice(&repr[repr.len() - count..]);
+    let out: Vec<u8> = repr[start..].to_vec();
 
     structure::StructureTag {
         id,
